@@ -215,7 +215,10 @@ def fam_einsum() -> Iterator[dict]:
                "outs": {"out": len(ins) + 1}}
     mm = [((2, 3), (3, 2)), ((3,), (3, 2)), ((2, 3), (3,)), ((3,), (3,)),
           ((2, 2, 3), (3, 2)), ((2, 3), (2, 3, 2)), ((2, 2, 3), (2, 3, 2)),
-          ((1, 2, 3), (2, 3, 2)), ((2, 0), (0, 3))]
+          ((1, 2, 3), (2, 3, 2)), ((2, 0), (0, 3)),
+          # batch axes of operands of DIFFERENT rank >= 3 align from the right
+          ((2, 3, 2, 2), (3, 2, 2)), ((3, 2, 2), (2, 3, 2, 2)), ((2, 2, 1, 2), (2, 2, 1)),
+          ((2, 1, 2, 2), (3, 2, 1))]
     for n, (sa, sb) in enumerate(mm):
         yield {"id": f"matmul/{n}", "inputs": [inp("a", sa), inp("b", sb)],
                "calls": [{"op": "matmul", "a": 1, "b": 2}], "outs": {"out": 3}}
